@@ -1641,6 +1641,9 @@ bool SchindelhauerTMCG::TMCG_VerifyStackEquality
 			in >> ss;
 			if (!in.good())
 				throw false;
+			// the received stack secret must fit the stacks
+			if (ss.size() != s.size())
+				throw false;
 			// verify equality proof
 			if (mpz_get_ui(foo) & 1UL)
 				TMCG_MixStack(s2, s4, ss, ring, false);
@@ -1720,6 +1723,9 @@ bool SchindelhauerTMCG::TMCG_VerifyStackEquality
 			// receive equality proof (response)
 			in >> ss;
 			if (!in.good())
+				throw false;
+			// the received stack secret must fit the stacks
+			if (ss.size() != s.size())
 				throw false;
 			// verify equality proof
 			if (mpz_get_ui(foo) & 1UL)
